@@ -13,7 +13,7 @@ from .models import Models
 from .source import Source
 from .spec import Schema
 
-SIDE_MODULES = ["specfns", "vecspec", "autodiff_c", "compiler_c", "analysis_c", "expressions_c", "constraints_c", "problem_c", "derivs_c", "solvers_c", "memo_c", "iterative_c", "jacrow_c"]
+SIDE_MODULES = ["specfns", "vecspec", "autodiff_c", "compiler_c", "analysis_c", "expressions_c", "constraints_c", "problem_c", "derivs_c", "solvers_c", "memo_c", "iterative_c", "jacrow_c", "jaccompile_c"]
 
 
 class Engine:
@@ -42,6 +42,8 @@ class Engine:
         self.reg.loop_index_hook = lambda ip, i: seqtheory.add_index(ip, i, loop=True)
         self.reg.index_used_hook = seqtheory.index_used
         self.reg.all_hook = seqtheory.all_hook
+        self.reg.scatter_assign_hook = seqtheory.scatter_assign_hook
+        self.reg.array_equal_hook = seqtheory.array_equal_hook
         self.reg.keyed_map_hook = lambda ip, S, kf, vf, desc: seqtheory.keyed_map(ip, S, kf, vf, None, desc, require_distinct=False)
         self.reg.define_array_hook = lambda ip, arr, n, elem: seqtheory.define_array(ip, arr, n, elem, "code")
 
